@@ -154,9 +154,10 @@ static std::unique_ptr<StreamFollower> make_follower(const std::vector<std::stri
     cfg_usesack = kv(w, "usesack", "0") == "1";
     cfg_rec = std::stoll(kv(w, "rec", "-1"));
     f->follow_partial_streams(kv(w, "attach", "0") == "1");
-    f->max_buffered_chunks_ = size_t(std::stoull(kv(w, "maxc", "512")));
-    f->max_buffered_bytes_ = uint32_t(std::stoull(kv(w, "maxb", "3145728")));
-    f->stream_keep_alive(std::chrono::microseconds(std::stoll(kv(w, "ka", "300000000"))));
+    // a limit the case line does not mention keeps the value the constructor gave it (DEFAULT_MAX_BUFFERED_CHUNKS, ...)
+    if (kv(w, "maxc", "") != "") f->max_buffered_chunks_ = size_t(std::stoull(kv(w, "maxc", "")));
+    if (kv(w, "maxb", "") != "") f->max_buffered_bytes_ = uint32_t(std::stoull(kv(w, "maxb", "")));
+    if (kv(w, "ka", "") != "") f->stream_keep_alive(std::chrono::microseconds(std::stoll(kv(w, "ka", ""))));
     if (kv(w, "nocb", "0") != "1") f->new_stream_callback([](Stream& s) {
         std::ostringstream o; o << "new " << sid(s) << " partial=" << s.is_partial_stream();
         events.push_back(o.str());
